@@ -806,7 +806,8 @@ def run(tier, seed):
     ngen = 2500 if tier == "quick" else 30000
     for _ in range(ngen):
         scns.append(gen_scenario(ck.rng))
-    new_viol = handle_pairs(ck, run_pairs(scns), S)
+    for i in range(0, len(scns), 500):          # batches: observations are compared and dropped
+        handle_pairs(ck, run_pairs(scns[i:i + 500]), S)
     ck.extra["scenarios_corpus"], ck.extra["scenarios_enumerated_small_scope"], ck.extra["scenarios_generated"] = ncorpus, nenum, ngen
     phases['paired-scenarios'], tp = round(time.time() - tp, 1), time.time()
     # ---------------------------------------------------------------- 7 real Telnet transports over loopback
@@ -818,7 +819,8 @@ def run(tier, seed):
         except Exception as e:      # noqa
             rig_trouble.append(repr(e))
             continue
-        if s["server_alive"] or a["server_alive"] or (s["server_err"] and "reset" not in s["server_err"].lower()):
+        benign = lambda e: (not e) or "reset" in e.lower() or "broken pipe" in e.lower()      # the client hung up first
+        if s["server_alive"] or a["server_alive"] or not benign(s["server_err"]) or not benign(a["server_err"]):
             rig_trouble.append(f"loopback server: {s['server_err']} / {a['server_err']}")
         d = T.compare_pair(s, a)
         ck.case(("real-telnet", json.dumps(scn, sort_keys=True)), nontrivial=True, sample={"real_telnet": scn["platform"], "ops": [o[0] for o in scn["ops"]]},
@@ -882,7 +884,7 @@ def run(tier, seed):
                 break
     if ck.broken and not ck.violations:
         focus = sorted({p for d in unaudited for p in PLATS if PAIR_OF_PLAT.get(p, p) == d[0]})
-        budget = 150 if tier == "quick" else 400
+        budget = 90 if tier == "quick" else 400
         t0 = time.time()
         extra = 0
         while time.time() - t0 < budget and not ck.violations:
@@ -913,6 +915,8 @@ def handle_pairs(ck, results, S):
         if rest:
             small = scn
             try:
+                if len(ck.violations) >= 2:          # only the first reports are minimised (time)
+                    raise StopIteration
                 small = minimise(scn, pair_fails)
                 s2 = S.run_sync(small)
                 from harness.c06auth import patched
